@@ -212,14 +212,14 @@ Lemma loops_is_power_of_two w n a : 0 < w -> wf w n a ->
 Proof.
   intros Hw [Ha _] fuel Hf. unfold Loops.is_power_of_two.
   apply while_count_bind with (n := n) (k := 0%nat)
-    (Inv := fun k '(i, ones) => i = Z.of_nat k /\ (k <= n)%nat /\
+    (Inv := fun k '(ones, i) => i = Z.of_nat k /\ (k <= n)%nat /\
                                 U_is_power_of_two a = is_power_of_two_loop (skipn k a) ones).
-  - intros k [i ones] (-> & Hk & Heq) Hc. rewrite ltb_of_nat in Hc. apply Nat.ltb_lt in Hc. split; [exact Hc|].
+  - intros k [ones i] (-> & Hk & Heq) Hc. rewrite ltb_of_nat in Hc. apply Nat.ltb_lt in Hc. split; [exact Hc|].
     rewrite arr_get_nat by lia. cbn [bind].
     rewrite Heq. rewrite (skipn_nth_cons a k) by lia. cbn [is_power_of_two_loop].
     rewrite Z.gtb_ltb. destruct (1 <? ones + u_count_ones (nth k a 0)); [reflexivity|].
     split; [lia|]. split; [lia | reflexivity].
-  - intros k [i ones] (-> & Hk & Heq) Hc. rewrite ltb_of_nat in Hc. apply Nat.ltb_ge in Hc.
+  - intros k [ones i] (-> & Hk & Heq) Hc. rewrite ltb_of_nat in Hc. apply Nat.ltb_ge in Hc.
     rewrite Heq. rewrite (skipn_all2 a) by lia. reflexivity.
   - split; [reflexivity|]. split; [lia | reflexivity].
   - lia.
